@@ -2,16 +2,50 @@ package scanner
 
 import (
 	"github.com/z7zmey/php-parser/pkg/conf"
+	"github.com/z7zmey/php-parser/pkg/errors"
+	"github.com/z7zmey/php-parser/pkg/position"
 	"github.com/z7zmey/php-parser/pkg/version"
 )
 
+type NewLines struct{ data []int }
+
+func (nl *NewLines) GetLine(p int) int { return len(nl.data) + 1 }
+
 type Lexer struct {
-	data       []byte
-	phpVersion *version.Version
+	data           []byte
+	phpVersion     *version.Version
+	errHandlerFunc func(*errors.Error)
+	ts, te         int
+	newLines       NewLines
 }
 
 func NewLexer(data []byte, config conf.Config) *Lexer {
-	return &Lexer{data: data, phpVersion: config.Version}
+	return &Lexer{data: data, phpVersion: config.Version, errHandlerFunc: config.ErrorHandlerFunc}
+}
+
+func (lex *Lexer) error(msg string) {
+	if lex.errHandlerFunc == nil {
+		return
+	}
+
+	pos := position.NewPosition(
+		lex.newLines.GetLine(lex.ts),
+		lex.newLines.GetLine(lex.te-1),
+		lex.ts,
+		lex.te,
+	)
+
+	lex.errHandlerFunc(errors.NewError(msg, pos))
+}
+
+// ok: early-return guard in a copy of the data (buf-readonly fixture)
+func (lex *Lexer) lower() []byte {
+	out := make([]byte, len(lex.data))
+	copy(out, lex.data)
+	for i := range out {
+		out[i] |= 0x20
+	}
+	return out
 }
 
 // ok: splits at 7.3
